@@ -118,7 +118,9 @@ func (o Op) has(k string) bool { _, ok := o.opt(k); return ok }
 
 const fieldA, fieldS, fieldC, fieldF, fieldR = "default_int32", "default_string", "optional_int32", "default_foreign_message", "repeated_int32"
 
-var letterPath = map[string]string{"a": fieldA, "s": fieldS, "c": fieldC, "f": fieldF, "r": fieldR, "x": "no_such_field"}
+var letterPath = map[string]string{"a": fieldA, "s": fieldS, "c": fieldC, "f": fieldF, "r": fieldR, "x": "no_such_field",
+	// paths INSIDE the nested message (read masks: a mask may name a message field and a path inside it)
+	"fc": fieldF + ".c", "fd": fieldF + ".d"}
 
 func parseMsg(s string) *T {
 	p := strings.Split(s, "/")
